@@ -625,6 +625,36 @@ class SymOpt:
     def __and__(self, o):
         return self._force() & o
 
+    def __rand__(self, o):
+        return o & self._force()
+
+    def __or__(self, o):
+        return self._force() | o
+
+    def __ror__(self, o):
+        return o | self._force()
+
+    def __lshift__(self, o):
+        return self._force() << o
+
+    def __rshift__(self, o):
+        return self._force() >> o
+
+    def __radd__(self, o):
+        return o + self._force()
+
+    def __rsub__(self, o):
+        return o - self._force()
+
+    def __floordiv__(self, o):
+        return self._force() // o
+
+    def __mod__(self, o):
+        return self._force() % o
+
+    def __neg__(self):
+        return -self._force()
+
     def __eq__(self, o):
         if o is None:
             return SymBool(self.none)
